@@ -438,8 +438,10 @@ class RetryExecutor(CanCustomizeBind, Executor):
             # No-op if this is due to our own cancel(); otherwise the delegate
             # was cancelled behind our back and our future is cancelled too.
             found_job.future._me_delegate_cancelled()
-            if found_job.future.cancelled():
-                self._pop_job(found_job)
+            # Either way the job is finished with. (_cancel relies on us to
+            # remove it; leaving it behind kept the future, the callable and its
+            # arguments alive for as long as the executor lived.)
+            self._pop_job(found_job)
             return
 
         (should_retry, sleep_time) = eval_policy(found_job, self._log)
